@@ -1,7 +1,10 @@
 (* C16: the event-level roll-up / paint-on timing model (model/SccRollPaint.v), run on any sequence of events with
-   positive instants, yields the chain through the event instants: each caption ends exactly when the next begins.
+   positive instants (the first mode command may be at instant 0: `rp_nonneg`), yields the chain through the event
+   instants: each caption ends exactly when the next begins (`rp_chain_all_nonneg`).
    The only caption that does not end at an event instant is the last one when it never received an end: a paint-on
-   caption stored by the last event (`ends_in_paint`) or still open at the end of the file (`pending`) lasts 4 s. *)
+   caption stored by the last event (`ends_in_paint`) or still open at the end of the file (`pending`) lasts 4 s.
+   When the instants increase, the captions are ordered by start and every caption has start < end
+   (`rp_chain_ordered`); without that the chain may run backwards (`rp_chain_unordered_backwards`). *)
 From Coq Require Import List ZArith QArith Lia Bool ZifyBool Lqa.
 From PV Require Import lib.Sx lib.Str lib.Result model.SccLen model.SccStash model.SccPopon model.SccRollPaint
   spec.SpecSccLen spec.SpecSccTime proofs.SccLenFacts proofs.SccStashFacts proofs.SccPoponFacts.
@@ -10,6 +13,16 @@ Local Open Scope Q_scope.
 Local Arguments stash_extend : simpl never.
 
 Definition rp_positive (t0 : Q) (evs : list rpev) : Prop := (0 < t0)%Q /\ forall e, In e evs -> (0 < rp_time e)%Q.
+(* the first mode command may be sent at instant 0: the first caption then starts at 0 and its end is set by the first
+   event; the "not ended yet" sentinel is `end == 0`, never `start == 0` *)
+Definition rp_nonneg (t0 : Q) (evs : list rpev) : Prop := (0 <= t0)%Q /\ forall e, In e evs -> (0 < rp_time e)%Q.
+
+Lemma rp_positive_nonneg : forall t0 evs, rp_positive t0 evs -> rp_nonneg t0 evs.
+Proof. intros t0 evs [Ht Hp]. split; [apply Qlt_le_weak; exact Ht|exact Hp]. Qed.
+
+(* strictly increasing instants, starting above t *)
+Fixpoint increasing (t : Q) (ts : list Q) : Prop :=
+  match ts with [] => True | x :: r => (t < x)%Q /\ increasing x r end.
 Definition ends_in_paint (evs : list rpev) : bool :=
   match last (map Some evs) None with Some (RPaint _) => true | _ => false end.
 
@@ -145,11 +158,11 @@ Proof.
 Qed.
 
 (* ---- (B) the held list against the chain -------------------------------------------------------- *)
-Lemma held_shape : forall evs time, 0 < time -> (forall e, In e evs -> 0 < rp_time e) ->
+Lemma held_shape : forall evs time, 0 <= time -> (forall e, In e evs -> 0 < rp_time e) ->
   (ends_in_paint evs = false /\ held time evs = chain time (map rp_time evs) /\
    Forall pos_end (chain time (map rp_time evs))) \/
   (ends_in_paint evs = true /\ exists l s e, chain time (map rp_time evs) = l ++ [(s, e)] /\
-     held time evs = l ++ [(s, 0)] /\ Forall pos_end l /\ 0 < s).
+     held time evs = l ++ [(s, 0)] /\ Forall pos_end l /\ 0 <= s).
 Proof.
   induction evs as [|ev r IH]; intros time Ht Hp.
   - left. repeat split. constructor.
@@ -165,7 +178,7 @@ Proof.
         by (destruct r; [congruence|destruct ev; reflexivity]).
       assert (He' : ends_in_paint (ev :: r) = ends_in_paint r) by (destruct r; [congruence|reflexivity]).
       rewrite Hh, He'. cbn [map chain].
-      destruct (IH (rp_time ev) Hev Hr) as [[He [Hc HF]]|[He [l [s [e [Hc [Hl [HF Hs]]]]]]]].
+      destruct (IH (rp_time ev) (Qlt_le_weak _ _ Hev) Hr) as [[He [Hc HF]]|[He [l [s [e [Hc [Hl [HF Hs]]]]]]]].
       * left. split; [exact He|]. split.
         -- rewrite Hc. reflexivity.
         -- constructor; [exact Hev|exact HF].
@@ -190,12 +203,19 @@ Proof.
   rewrite fix_last_ended by (apply cues_ended; exact HF). rewrite spans_cues. reflexivity.
 Qed.
 
-Lemma finish_open : forall l s n, Forall pos_end l -> 0 < s ->
+Lemma pending_not_flash0 : forall s : Q, 0 <= s -> is_flash (cue s 0) = false.
+Proof.
+  intros s H. unfold is_flash. cbn [cue pc_start pc_end].
+  assert (E : Qle_bool (0 - s) 0 = true) by (apply Qle_bool_iff; lra).
+  rewrite E. reflexivity.
+Qed.
+
+Lemma finish_open : forall l s n, Forall pos_end l -> 0 <= s ->
   spans_of (finish_read (mkStash (map cue' (l ++ [(s, 0)])) n)) = verdict (l ++ [(s, s + four_s)]).
 Proof.
   intros l s n HF Hs. unfold finish_read, verdict. cbn [st_caps]. rewrite length_check_cues.
   rewrite map_app, !existsb_app, existsb_flash_cues. cbn [map existsb].
-  change (cue' (s, 0)) with (cue s 0). rewrite pending_not_flash by exact Hs. rewrite four_s_not_flash.
+  change (cue' (s, 0)) with (cue s 0). rewrite pending_not_flash0 by exact Hs. rewrite four_s_not_flash.
   destruct (existsb flash l); [reflexivity|]. cbn [orb].
   assert (E1 : forall (A : Type) (x : A) (k : list A) (R : Type) (a b : R),
                  match k ++ [x] with [] => a | _ :: _ => b end = b) by (intros A x [|y k] R a b; reflexivity).
@@ -207,7 +227,7 @@ Proof.
 Qed.
 
 (* ---- the theorems -------------------------------------------------------------------------------- *)
-Lemma rp_read_not_pending : forall t0 evs, rp_positive t0 evs ->
+Lemma rp_read_not_pending_nonneg : forall t0 evs, rp_nonneg t0 evs ->
   rp_read t0 evs false = rp_expected_all t0 evs false.
 Proof.
   intros t0 evs [Ht Hp]. unfold rp_read, rprun, rp_expected_all, rp_spans. rewrite run_held.
@@ -217,6 +237,10 @@ Proof.
   - rewrite Hc. apply finish_ended. exact HF.
   - rewrite Hl, Hc, open_last_snoc. apply finish_open; assumption.
 Qed.
+
+Lemma rp_read_not_pending : forall t0 evs, rp_positive t0 evs ->
+  rp_read t0 evs false = rp_expected_all t0 evs false.
+Proof. intros t0 evs H. apply rp_read_not_pending_nonneg, rp_positive_nonneg, H. Qed.
 
 (* a paint-on buffer still open at the end of the file is one more RPaint event (its instant is irrelevant) *)
 Lemma pending_as_event : forall t0 evs x, rprun t0 evs true = rprun t0 (evs ++ [RPaint x]) false.
@@ -233,21 +257,24 @@ Proof.
   - intros x Hx. apply Hp. right. exact Hx.
 Qed.
 
-(* the general theorem: every event list with positive instants *)
-Theorem rp_chain_all : forall t0 evs pending, rp_positive t0 evs ->
+(* the general theorem: every event list with positive instants; the first mode command may be at instant 0 *)
+Theorem rp_chain_all_nonneg : forall t0 evs pending, rp_nonneg t0 evs ->
   rp_read t0 evs pending = rp_expected_all t0 evs pending.
 Proof.
-  intros t0 evs [|] H; [|apply rp_read_not_pending; exact H].
-  set (x := last (map rp_time evs) t0).
-  assert (Hx : 0 < x) by (apply last_positive; exact H).
-  unfold rp_read. rewrite (pending_as_event t0 evs x).
-  change (rp_read t0 (evs ++ [RPaint x]) false = rp_expected_all t0 evs true).
-  rewrite rp_read_not_pending.
+  intros t0 evs [|] H; [|apply rp_read_not_pending_nonneg; exact H].
+  (* the instant of the closing pseudo-event is irrelevant: take 1 *)
+  unfold rp_read. rewrite (pending_as_event t0 evs 1).
+  change (rp_read t0 (evs ++ [RPaint 1]) false = rp_expected_all t0 evs true).
+  rewrite rp_read_not_pending_nonneg.
   - unfold rp_expected_all, rp_spans. rewrite ends_in_paint_snoc, map_app. cbn [map rp_time].
     rewrite chain_snoc, open_last_snoc. reflexivity.
   - destruct H as [Ht Hp]. split; [exact Ht|]. intros e He. apply in_app_or in He.
-    destruct He as [He|[<-|[]]]; [apply Hp; exact He|exact Hx].
+    destruct He as [He|[<-|[]]]; [apply Hp; exact He|reflexivity].
 Qed.
+
+Theorem rp_chain_all : forall t0 evs pending, rp_positive t0 evs ->
+  rp_read t0 evs pending = rp_expected_all t0 evs pending.
+Proof. intros t0 evs pending H. apply rp_chain_all_nonneg, rp_positive_nonneg, H. Qed.
 
 (* Leibniz equality: both sides only copy the given instants; the 4 s end is `s + inject_Z 4000000` on the model side
    and `s + four_s` on the statement side, and four_s unfolds to inject_Z 4000000. *)
@@ -298,3 +325,119 @@ Proof.
   { destruct (chain t0 (map rp_time evs) ++ tail); [discriminate|]. inversion Hr. reflexivity. }
   subst l. apply chain_linked. unfold tail. destruct pending; [right; eexists; reflexivity|left; reflexivity].
 Qed.
+
+(* ---- ordered by start, start < end -------------------------------------------------------------- *)
+Lemma four_s_pos : 0 < four_s.
+Proof. reflexivity. Qed.
+
+Lemma increasing_prefix : forall ts t x, increasing t (ts ++ [x]) -> increasing t ts.
+Proof.
+  induction ts as [|y r IH]; intros t x H; [exact I|].
+  cbn [app increasing] in *. destruct H as [H1 H2]. split; [exact H1|exact (IH y x H2)].
+Qed.
+
+Lemma ends_in_paint_inv : forall evs, ends_in_paint evs = true -> exists evs' x, evs = evs' ++ [RPaint x].
+Proof.
+  induction evs as [|e r IH]; intros H; [discriminate|].
+  destruct r as [|e' r'].
+  - destruct e as [t|t]; [discriminate|]. exists [], t. reflexivity.
+  - rewrite ends_in_paint_cons in H. destruct (IH H) as (evs' & x & E). exists (e :: evs'), x. rewrite E. reflexivity.
+Qed.
+
+(* every span list of the statement is a chain through increasing instants, possibly followed by one span that starts
+   at the last instant and ends later *)
+Definition later_tail (ts : list Q) (t0 : Q) (tail : list (Q * Q)) : Prop :=
+  tail = [] \/ exists e, tail = [(last ts t0, e)] /\ last ts t0 < e.
+
+Lemma rp_spans_form : forall t0 evs pending, increasing t0 (map rp_time evs) ->
+  exists ts tail, rp_spans t0 evs pending = chain t0 ts ++ tail /\ increasing t0 ts /\ later_tail ts t0 tail.
+Proof.
+  intros t0 evs pending Hinc. unfold rp_spans. cbv zeta. destruct pending.
+  - exists (map rp_time evs), [(last (map rp_time evs) t0, last (map rp_time evs) t0 + four_s)].
+    split; [reflexivity|]. split; [exact Hinc|]. right. eexists. split; [reflexivity|].
+    pose proof four_s_pos. lra.
+  - destruct (ends_in_paint evs) eqn:E.
+    + destruct (ends_in_paint_inv evs E) as (evs' & x & ->).
+      rewrite map_app in *. cbn [map rp_time] in *. rewrite chain_snoc, open_last_snoc.
+      exists (map rp_time evs'), [(last (map rp_time evs') t0, last (map rp_time evs') t0 + four_s)].
+      split; [reflexivity|]. split; [exact (increasing_prefix _ _ _ Hinc)|].
+      right. eexists. split; [reflexivity|]. pose proof four_s_pos. lra.
+    + exists (map rp_time evs), []. split; [symmetry; apply app_nil_r|]. split; [exact Hinc|]. left. reflexivity.
+Qed.
+
+Lemma chain_ordered : forall ts t0 tail, increasing t0 ts -> later_tail ts t0 tail ->
+  Forall (fun p => fst p < snd p) (chain t0 ts ++ tail) /\
+  (forall i a b, nth_error (chain t0 ts ++ tail) i = Some a -> nth_error (chain t0 ts ++ tail) (S i) = Some b ->
+     fst a < fst b).
+Proof.
+  induction ts as [|t r IH]; intros t0 tail Hinc Htail.
+  - cbn [chain app]. destruct Htail as [->|[e [-> He]]].
+    + split; [constructor|]. intros [|i] a b Ha; discriminate.
+    + split; [constructor; [exact He|constructor]|]. intros [|i] a b Ha Hb; [discriminate|destruct i; discriminate].
+  - cbn [increasing] in Hinc. destruct Hinc as [H0 Hinc].
+    assert (Htail' : later_tail r t tail).
+    { unfold later_tail in *. rewrite last_cons in Htail. exact Htail. }
+    destruct (IH t tail Hinc Htail') as [HF HO]. cbn [chain app]. split.
+    + constructor; [exact H0|exact HF].
+    + intros [|i] a b Ha Hb.
+      * cbn [nth_error] in Ha, Hb. inversion Ha; subst a. cbn [fst].
+        destruct r as [|t' r'].
+        -- cbn [chain app] in Hb. destruct Htail' as [->|[e [-> He]]]; [discriminate|].
+           cbn [last] in Hb. inversion Hb; subst b. exact H0.
+        -- cbn [chain app] in Hb. inversion Hb; subst b. exact H0.
+      * cbn [nth_error] in Ha. change (nth_error (chain t r ++ tail) (S i) = Some b) in Hb.
+        exact (HO i a b Ha Hb).
+Qed.
+
+(* C16 "captions are ordered by start with start < end, and each caption ends exactly when the next one begins":
+   no side condition on the last event is needed - the caption opened to 4 s is the last one *)
+Theorem rp_chain_ordered : forall t0 evs pending l, rp_nonneg t0 evs -> increasing t0 (map rp_time evs) ->
+  rp_read t0 evs pending = Ok l ->
+  Forall (fun p => (fst p < snd p)%Q) l /\
+  (forall i a b, nth_error l i = Some a -> nth_error l (S i) = Some b -> (fst a < fst b)%Q /\ snd a = fst b).
+Proof.
+  intros t0 evs pending l H Hinc Hr. rewrite rp_chain_all_nonneg in Hr by exact H.
+  unfold rp_expected_all in Hr. cbv zeta in Hr.
+  destruct (existsb flash _); [discriminate|].
+  destruct (rp_spans_form t0 evs pending Hinc) as (ts & tail & E & Hi & Ht). rewrite E in Hr.
+  assert (El : l = chain t0 ts ++ tail) by (destruct (chain t0 ts ++ tail); [discriminate|inversion Hr; reflexivity]).
+  subst l. destruct (chain_ordered ts t0 tail Hi Ht) as [HF HO]. split; [exact HF|].
+  intros i a b Ha Hb. split; [exact (HO i a b Ha Hb)|].
+  apply (chain_linked ts t0 tail) with (i := i); [|exact Ha|exact Hb].
+  destruct Ht as [->|[e [-> _]]]; [left; reflexivity|right; eexists; reflexivity].
+Qed.
+
+(* without increasing instants the spans are still chained but may run backwards *)
+Example rp_chain_unordered_backwards :
+  rp_read 5000000 [RRoll 3000000] false = Ok [(5000000, 3000000)].
+Proof. vm_compute. reflexivity. Qed.
+
+(* ---- non-vacuity: a mixed list, first mode command at instant 0, a paint-on caption pending at the end --------- *)
+Example rp_chain_all_example :
+  let evs := [RRoll 1000000; RPaint 2000000; RPaint 3500000; RRoll 5000000] in
+  rp_nonneg 0 evs /\ increasing 0 (map rp_time evs) /\
+  rp_read 0 evs true =
+    Ok [(0, 1000000); (1000000, 2000000); (2000000, 3500000); (3500000, 5000000); (5000000, 5000000 + four_s)] /\
+  rp_expected_all 0 evs true = rp_read 0 evs true.
+Proof.
+  cbv zeta. split; [|split; [|split]].
+  - split; [apply Qle_refl|]. intros e He. cbn [In] in He.
+    destruct He as [<-|[<-|[<-|[<-|[]]]]]; reflexivity.
+  - cbn [map rp_time increasing]. repeat split.
+  - vm_compute. reflexivity.
+  - vm_compute. reflexivity.
+Qed.
+
+Example rp_chain_ordered_example :
+  exists l, rp_read 0 [RRoll 1000000; RPaint 2000000; RPaint 3500000; RRoll 5000000] true = Ok l /\
+    length l = 5%nat /\ Forall (fun p => fst p < snd p) l /\
+    (forall i a b, nth_error l i = Some a -> nth_error l (S i) = Some b -> fst a < fst b /\ snd a = fst b).
+Proof.
+  destruct rp_chain_all_example as (Hn & Hi & Hr & _). eexists. split; [exact Hr|]. split; [reflexivity|].
+  exact (rp_chain_ordered _ _ _ _ Hn Hi Hr).
+Qed.
+
+(* the same with a final RPaint and nothing pending: the caption stored by the last event is the one opened to 4 s *)
+Example rp_chain_ordered_example_open_last :
+  rp_read 0 [RRoll 1000000; RPaint 2000000] false = Ok [(0, 1000000); (1000000, 1000000 + four_s)].
+Proof. vm_compute. reflexivity. Qed.
